@@ -223,6 +223,10 @@ def run(module, cfg=None, workers=16, env=None, timeout=3600, simulate=None,
                 res.invariant_violated or res.property_violated or res.deadlock or res.assume_failed
                 or "The behavior up to this point" in p.stdout))):
         if not (res.invariant_violated or res.property_violated or res.deadlock):
+            if os.environ.get("VERIF_DEBUG"):
+                open("/tmp/verif-debug-tlc.out", "w").write(p.stdout)
+                if env and env.get("TRACE_FILE"):
+                    shutil.copy(env["TRACE_FILE"], "/tmp/verif-debug-trace.ndjson")
             raise TlcFailure("TLC failed on %s/%s:\n%s" % (module, cfg, p.stdout[-4000:]))
     return res
 
